@@ -21,11 +21,13 @@
 //!
 //! The compiled path must be indistinguishable from `evaluate_expr` through
 //! every consumer:
-//! - arithmetic and comparisons are null-strict, matching the interpreter's
-//!   arrow kernels (`boolean::and`, not Kleene). Because every operator in
-//!   the subset is null-strict, a result row is valid iff EVERY referenced
+//! - arithmetic, comparisons and NOT are null-strict, matching the
+//!   interpreter's arrow kernels: a result row is valid iff EVERY referenced
 //!   column is valid at that row — so validity is computed once as the AND
 //!   of leaf validities, exactly what kernel-by-kernel propagation yields.
+//! - AND/OR are Kleene (SQL three-valued logic) in the interpreter, which is
+//!   NOT null-strict; a program containing them evaluates null-free batches
+//!   fused and hands batches that carry NULLs to the interpreter.
 //! - f64 division by zero produces ±inf/NaN in both paths (never null).
 //! - numeric comparisons require identical arrow types on both sides;
 //!   anything the interpreter would coerce falls back to the interpreter.
@@ -164,6 +166,13 @@ pub struct CompiledPredicate {
     out: u8,
     f_regs: usize,
     m_regs: usize,
+    /// Set when the program contains AND/OR (incl. BETWEEN's conjunction).
+    /// Those are Kleene operators, NOT null-strict (`FALSE AND NULL` is
+    /// FALSE), so the "valid iff every referenced column is valid" rule below
+    /// does not hold for them. Batches that actually carry NULLs in a
+    /// referenced column are handed to the interpreter via this expression;
+    /// null-free batches (the hot path) stay fused.
+    kleene_fallback: Option<Expr>,
 }
 
 /// Is compilation enabled? `QE_COMPILE=0` restores the interpreter.
@@ -441,6 +450,10 @@ impl CompiledPredicate {
         }
         let mut c = Compiler::new();
         let out = c.boolean(expr, schema)?;
+        let has_logic = c
+            .prog
+            .iter()
+            .any(|i| matches!(i, Instr::And { .. } | Instr::Or { .. }));
         Some(CompiledPredicate {
             cols: c.cols,
             col_types: c.col_types,
@@ -448,6 +461,7 @@ impl CompiledPredicate {
             out,
             f_regs: c.next_f as usize,
             m_regs: c.next_m as usize,
+            kleene_fallback: has_logic.then(|| expr.clone()),
         })
     }
 
@@ -475,6 +489,15 @@ impl CompiledPredicate {
         }
 
         let any_nulls = arrays.iter().any(|a| a.as_any_array().null_count() > 0);
+        if any_nulls {
+            if let Some(expr) = &self.kleene_fallback {
+                // AND/OR over NULLs is three-valued; the interpreter's Kleene
+                // kernels are the definition. An error here makes the caller
+                // fall back and surface it.
+                let arr = crate::physical::operators::evaluate_expr(batch, expr).ok()?;
+                return arr.as_any().downcast_ref::<BooleanArray>().cloned();
+            }
+        }
 
         let mut f_slabs = vec![[0f64; CHUNK]; self.f_regs.max(1)];
         let mut m_slabs = vec![[0u8; CHUNK]; self.m_regs.max(1)];
